@@ -142,8 +142,67 @@ LIST_HEADERS = Contract(
 )
 
 
+# ----- the body of list_headers against a concrete list (what the summary above abstracts)
+def _items_stub(ev, recv, args, kwargs, node):
+    """Mapping.items() of the header mapping (collections.abc mixin): one (k, self[k]) pair per key (A-abc-1); the pair
+    list is named by the ghost `its`"""
+    from pyvc.builtins import mk_quant
+    USED.add("A-abc-1")
+    st = ev.st
+    m = st.obj(st.obj(recv).fields["_dict"])
+    ref = st.ghost["its"]
+    lo = st.obj(ref)
+    n = lo.length
+    kc, vc = lo.cols
+    i, j = z3.Int(st.run.fresh_name("it_i")), z3.Int(st.run.fresh_name("it_j"))
+    st.assume(mk_quant("forall", [i], z3.Implies(z3.And(0 <= i, i < n), z3.And(m.has[kc[i]], vc[i] == m.val[0][kc[i]])),
+                       patterns=[kc[i]]))
+    st.assume(mk_quant("forall", [i, j], z3.Implies(z3.And(0 <= i, i < j, j < n), kc[i] != kc[j]),
+                       patterns=[z3.MultiPattern(kc[i], kc[j])]))
+    pos = z3.Function(st.run.fresh_name("items.pos"), S, z3.IntSort())
+    k = z3.String(st.run.fresh_name("it_k"))
+    st.assume(mk_quant("forall", [k], z3.Implies(m.has[k], z3.And(0 <= pos(k), pos(k) < n, kc[pos(k)] == k)), patterns=[m.has[k]]))
+    return ref
+
+
+_items_stub.mods = ()
+_items_stub.mutates_recv = False
+
+
+def _cookie_str(ev, args, kwargs, node):
+    """str(cookie) / bytes(cookie): Cookie.__str__ (its own contract in C13/C16) seen as a function of the cookie;
+    ASCII by that contract, so bytes(cookie) is the same text"""
+    c = args[0]
+    return VStr(ufunc("cookie_text", opaque_sort("Cookie"), S)(c.t), node.func.id == "bytes")
+
+
+LIST_HEADERS_BODY = Contract(
+    id="list_headers[body]", file=R, qualname="BaseResponse.list_headers", props=["C05", "C13", "C02"],
+    params={"self": ObjT("baize/responses.py:BaseResponse", headers=MH_T, cookies=List(Opaque("Cookie"))), "as_bytes": Bool},
+    ghosts={"its": List(Tup(Str, Str))},
+    requires=["forall((k, Str), implies(has(self.headers._dict, k), inre(k, '[\\x00-\\xff]*') and "
+              "inre(self.headers._dict[k], '[\\x00-\\xff]*')))"],    # header text is Latin-1 (kept by the mutators, C13)
+    ufuncs={"cookie_text": ([Opaque("Cookie")], Str)},
+    stub_methods={(MH, "items"): _items_stub}, stubs={"str": _cookie_str, "bytes": _cookie_str},
+    applies=lambda ev, args, kwargs: False,      # call sites use the summary above; this contract only verifies the body
+    frame_check=False, raises={},
+    ensures={
+        # the emitted list is exactly: the mapping's items (one line per name, same text), then one set-cookie line per
+        # cookie in order - nothing else, nothing twice
+        "length": "len(result) == len(its) + len(self.cookies)",
+        "header_lines": "forall(i, 0, len(its), result[i][0] == (its[i][0].encode('latin-1') if as_bytes else its[i][0]) and "
+                        "result[i][1] == (its[i][1].encode('latin-1') if as_bytes else its[i][1]))",
+        "cookie_lines": "forall(j, 0, len(self.cookies), result[len(its) + j][0] == (b'set-cookie' if as_bytes else 'set-cookie') and "
+                        "result[len(its) + j][1] == (cookie_text(self.cookies[j]).encode('latin-1') if as_bytes else cookie_text(self.cookies[j])))",
+    },
+    assumptions=["A-abc-1"],
+    notes="verifies the real body of list_headers; `its` names headers.items() (exactly one (k, headers[k]) per key). The "
+          "summary contract `list_headers` used at call sites (map view + number of cookie lines) is the abstraction of this",
+)
+
+
 def register(reg):
-    for c in (SETITEM, DELITEM, GETITEM, APPEND, LIST_HEADERS):
+    for c in (SETITEM, DELITEM, GETITEM, APPEND, LIST_HEADERS, LIST_HEADERS_BODY):
         reg.add(c)
     for cls in ("MutableHeaders", "Headers"):
         reg._mixins[(cls, "__contains__")] = mapping_contains
